@@ -45,12 +45,13 @@ def scan_cfg(job):
 
 
 SCENARIOS = {
+    "md009-list-lines": (("plugins.md009.list_item_empty_lines", True), ("plugins.md009.br_spaces", 3)),
     "front-matter-title": (("extensions.front-matter.enabled", True), ("plugins.md025.front_matter_title", "Title"), ("plugins.md041.front_matter_title", "Title")),
     "front-matter": (("extensions.front-matter.enabled", True),),
     "styles": (("plugins.md013.line_length", 20), ("plugins.md013.strict", True), ("plugins.md003.style", "setext_with_atx"), ("plugins.md004.style", "plus"),
                ("plugins.md024.siblings_only", True), ("plugins.md025.level", 2), ("plugins.md041.level", 2), ("plugins.md046.style", "fenced"), ("plugins.md035.style", "***")),
 }
-FM_DOCS = ["---\nTitle: my document\n---\n\nsome text\n", "---\ntitle: x\n---\n\n# h\n", "---\nTitle: x\nSubject: y\n---\n\n# a\n\n# b\n", "---\nTITLE: x\n---\n\n## a\n\ntext  \n",
+FM_DOCS = ["# Title\n\n- a\n   ", "# t\n\n- a\n  \n- b\n", "# t\n\n1. a\n    \n   b  \n", "# t\n\n- a\n \n  c   \nd\n", "---\nTitle: my document\n---\n\nsome text\n", "---\ntitle: x\n---\n\n# h\n", "---\nTitle: x\nSubject: y\n---\n\n# a\n\n# b\n", "---\nTITLE: x\n---\n\n## a\n\ntext  \n",
            "---\nsubject: s\nTitle: t\n---\ntext\n\n# h\n", "---\nauthor: me\n---\n\nsome text\n", "---\nTitle:\n---\n\n# h\n\n# i\n", "---\ntitle: a\nTitle: b\n---\n\ntext\n"]
 
 
@@ -195,6 +196,6 @@ def run(ctx):
     ]
     return ctx.finish(
         level="proof",
-        rule=f"per document {per} scans: all rules, default set, each of {len(allr)} rules alone, default minus each of {len(default)}; documents from the repository's own test corpus ({len(corpus)} documents; quick: 450 seed-selected incl. 150 with >= 9 lines) + trigger-line documents + 60 documents with pragmas naming two rules + 25 documents in which line-phase rules fire on successive lines; 3 configured scenarios (front matter with a configured title, front matter, non-default styles) x (8 front-matter documents + sampled small documents) x (default set, each default rule alone, default minus each); non-trivial = at least one failure reported; distinct by document",
+        rule=f"per document {per} scans: all rules, default set, each of {len(allr)} rules alone, default minus each of {len(default)}; documents from the repository's own test corpus ({len(corpus)} documents; quick: 450 seed-selected incl. 150 with >= 9 lines) + trigger-line documents + 60 documents with pragmas naming two rules + 25 documents in which line-phase rules fire on successive lines; 4 configured scenarios (front matter with a configured title, front matter, non-default styles, MD009 list-item lines) x (12 front-matter and list documents + sampled small documents) x (default set, each default rule alone, default minus each); non-trivial = at least one failure reported; distinct by document",
         assumptions=["documents on which the parser or a rule crashes are skipped here (C01, C07)"],
     )
